@@ -677,6 +677,34 @@ pub fn run(out: &mut Out, tier: &str, seed: u64, prop: &str) {
         "C04" => {
             let mk = |x: &Item| Item { term: x.term.clone(), tree: x.tree.clone(), dump: x.dump.clone() };
             let mut pairs: Vec<(Item, Item)> = Vec::new();
+            // operands with SEVERAL edges each on one variable (two-atom disjunctions over five literals): the edge-level walk has to
+            // pair every range of one operand with every range of the other it meets, in both operand orders. Judged here by the
+            // verdict's own laws — symmetric, and true exactly when the conjunction is the FALSE marker (C02 / C03 tie `and` to meaning)
+            {
+                for (is_ver, k) in [(true, 1usize), (false, 1usize)] {
+                    let lits: [&str; 5] = if is_ver { ["3.6", "3.7", "3.8", "3.9", "3.10"] } else { ["a", "c", "e", "g", "i"] };
+                    let mut atoms: Vec<Term> = Vec::new();
+                    for l in lits { for op in [0usize, 2, 4] {
+                        atoms.push(if is_ver { Term::V(k, op, l.to_string()) } else { Term::S(k, [0usize, 4, 2][op / 2], l.to_string()) });   // == < >
+                    } }
+                    let mut ors: Vec<(Term, MarkerTree)> = Vec::new();
+                    for i in 0..atoms.len() { for j in (i + 1)..atoms.len() {
+                        let t = Term::or(atoms[i].clone(), atoms[j].clone());
+                        let Some(m) = try_build(out, "C04", &t) else { return };
+                        ors.push((t, m));
+                    } }
+                    for (ta, a) in &ors { for (tb, b) in &ors {
+                        out.evaluations += 1;
+                        let (ab, ba) = (a.is_disjoint(b), b.is_disjoint(a));
+                        let mut conj = a.clone();
+                        conj.and(b.clone());
+                        if ab != ba || ab != conj.is_false() {
+                            out.oracle_fail("C04", &format!("is_disjoint is {ab} one way, {ba} the other, and the conjunction is{} FALSE", if conj.is_false() { "" } else { " not" }), serde_json::json!({"a": ta.line(), "b": tb.line()}));
+                        }
+                    } }
+                    out.stat_n("c04.multi_edge_pairs", (ors.len() * ors.len()) as u64);
+                }
+            }
             // operands that touch in exactly one point, or are separated by one point: every ordered pair of
             // comparisons against the same literal on the same key (version keys with inclusive bounds, string
             // keys), bare and under / above other variables
